@@ -697,6 +697,10 @@ def rewrite_equal(t, pairs):
     if not pairs:
         return t
     m = {b.id: a for a, b in pairs}
+    for a, b in pairs:
+        # x.shape[0] is spelled len(x): equal shapes are equal lengths
+        if a.op == "attr" and b.op == "attr" and a.a[1] == "shape" and b.a[1] == "shape":
+            m[tm.call(tm.mk("builtin", "len"), (b.a[0],)).id] = tm.call(tm.mk("builtin", "len"), (a.a[0],))
     return tm.rebuild(t, lambda z: m.get(z.id))
 
 
